@@ -10,11 +10,14 @@
    (C15_section_collision_refuted).
 
    The re-parse clause of the property ("the result re-parses without junk") needs
-   the block theorems of C02 and is checked by the harness oracle on every case; it
-   is not stated here (see the manifest). *)
+   the block theorems of C02, which are not available: C15_reparse_partial states it
+   conditionally on the re-parse lemma for the output entry list ([reparses parse out]:
+   the parser returns, for the concatenated texts, those entries); the harness oracle
+   checks the clause with the real parser on every case. *)
 From Coq Require Import ZArith NArith List Bool Arith.
 From CL Require Import Base.Sx Base.Res Base.Str Model.AddRemove Model.Channels
-                       Proofs.ChannelsProofs Proofs.ChannelsSpec Proofs.ChannelsIdentical.
+                       Proofs.ChannelsProofs Proofs.ChannelsSpec Proofs.ChannelsIdentical
+                       Proofs.ReparsePartial.
 Import ListNotations.
 Local Open Scope nat_scope.
 
@@ -64,6 +67,18 @@ Theorem C15_identical : forall name p v n, get_parser name = Ok (Some p) -> ukey
   merge_channels name (repeat v (S n)) = Ok (concat (map c_text v)).
 Proof. exact merge_identical. Qed.
 
+(* _partial: missing is the re-parse lemma itself (C02 block theorems) — given it for the
+   output entry list, the merged text of junk-free versions re-parses without junk and
+   with every key of every version exactly once *)
+Theorem C15_reparse_partial : forall (parse : str -> list centry) name vs txt,
+  Forall ukeys vs -> Forall (Forall nonjunk) vs -> merge_channels name vs = Ok txt ->
+  exists out, merge_entries vs = Ok out /\ txt = serialize_legacy out /\ Forall nonjunk out /\
+    (reparses parse out ->
+       Forall nonjunk (parse txt) /\
+       forall v e, In v vs -> In e v -> keyed e = true ->
+         length (filter (has_key (c_key e)) (parse txt)) = 1).
+Proof. exact merge_reparse. Qed.
+
 (* no parser for the name: refused explicitly; looking for the parser never fails otherwise *)
 Theorem C15_unsupported : forall name vs, get_parser name = Ok None ->
   merge_channels name vs = Raise NotSupported.
@@ -87,6 +102,9 @@ Example C15_example_ukeys : Forall ukeys [ex_new; ex_old].
 Proof.
   repeat constructor; cbn; intros H; repeat (destruct H as [H|H]; try discriminate); exact H.
 Qed.
+
+Example C15_example_nonjunk : Forall (Forall nonjunk) [ex_new; ex_old].
+Proof. repeat constructor. Qed.
 
 (* "a=1\n# c\n\nz=3\nb=2\n" *)
 Example C15_example_merge :
